@@ -10,7 +10,7 @@ RULE = ("histories with ONE normal consumer per queue (with or without a topic f
         "enqueues interleaved with consumes so that the backlog stays non-empty, rejects and consumer restarts returning "
         "messages, a few delayed and expiring messages mixed in; distinct by the printed Coq op list; non-trivial = at least "
         "three deliveries to the normal consumer, with a return or an interleaved enqueue among them")
-TRUSTED = ["in-memory broker only; Redis and RabbitMQ clients are not covered by this revision of the check",
+TRUSTED = ["brokers: in-memory (concurrent histories, cancellation), Redis client over harness/fakeredis.py = coq/RedisSrv.v (sequential histories of one client), RabbitMQ client over harness/fakeamqp.py = coq/AmqpSrv.v (sequential histories, fixed callback schedule); RedisSrv.v and AmqpSrv.v are descriptions of the servers written from their documentation, not compared with real servers (none available)",
            "the in-memory broker ignores priorities (one FIFO list per queue), so FIFO holds across priorities as well"]
 ASSUMPTIONS = ["a single normal consumer is attached to the queue (the property's premise)",
                "clients are well-behaved (fresh ids, terminal actions on held messages)"]
